@@ -20,6 +20,7 @@ pub mod c11;
 pub mod c12;
 pub mod c13;
 pub mod c14;
+pub mod c17;
 pub mod c18;
 
 pub struct Ctx<'a> {
@@ -138,6 +139,7 @@ pub fn custom_by_id(id: &str) -> Option<CustomRun> {
         "C12" => Some(c12::run),
         "C13" => Some(c13::run),
         "C14" => Some(c14::run),
+        "C17" => Some(c17::run),
         "C18" => Some(c18::run),
         _ => None,
     }
